@@ -22,8 +22,16 @@ RULE = ("(limits, entries) on a boundary lattice: for each of the six thresholds
         "of the ratio limit (2^40..2^70 bytes); realised as in-memory ZipInfo lists (validate_zipfile), as real ZIPs "
         "with forged central directories (open_zipfile, validate_zip_bytesio, random start positions; truncated / "
         "garbage containers as the malformed stream) and as re-packed fixture documents with forged extra members "
-        "run through all nine container extractors under a runtime monitor. distinct = distinct (limits, entries) "
-        "or (extractor, forged point); non-trivial = at least one non-directory entry")
+        "run through all nine container extractors under a runtime monitor. FIELDS: in about half of the cases every "
+        "other ZipInfo / central-directory field is varied independently of (file_size, compress_size, trailing slash): "
+        "member name (directory-looking file names 'd', 'd\\', 'd/.', 'd/ ', '', duplicates; directory names '/', "
+        "'f.bin/'), external_attr (MS-DOS directory bit 0x10, unix S_IFDIR / S_IFLNK modes, 0xFFFFFFFF), internal_attr, "
+        "create_system, create/extract version, flag_bits (encrypted, data descriptor, UTF-8, all), compress_type, CRC, "
+        "DOS date/time, disk number, extra (timestamp / unix / NTFS / unicode-path / unknown / unreferenced ZIP64 "
+        "TLVs), member comment, archive comment; sizes >= 2^32 as ZIP64 extras in real ZIPs; the `source=` label; the "
+        "Lean driver receives the whole record and derives 'directory' from the NAME (Entry.ofRecord); forged fixture "
+        "points '<point>@<decor>' (decor on the forged members) and '<point>@@<decor>' (on every member). distinct = "
+        "distinct (limits, entries[, fields]) or (extractor, forged point); non-trivial = at least one non-directory entry")
 ASSUMPTIONS = [
     "sizes in a ZipInfo are non-negative ints (unsigned ZIP/ZIP64 fields; zipfile unpacks them with '<L'/'<Q'); "
     "negative or non-integer sizes on hand-made ZipInfo objects are outside the model",
@@ -36,6 +44,12 @@ ASSUMPTIONS = [
     "extractor (.zip/.tar/.7z) opens zipfile.ZipFile unguarded by design and belongs to C09/C12",
     "the entry-count clause counts central-directory records including directory entries (len(infolist())); "
     "'directory entries are ignored' is read as: their sizes never matter",
+    "a 'directory entry' is a record whose NAME ends with '/' (CPython posix ZipInfo.is_dir()); CHECKED on every run: "
+    "ZipInfo.is_dir() == filename.endswith('/') on every generated name, and zipfile hands out name / sizes / "
+    "attributes of every forged central directory as written (own parser vs. zipfile) — c11.zipfile.is_dir / .parse",
+    "not generated: names with NUL bytes or non-ASCII characters, unicode-path extras (0x7075) with a matching CRC "
+    "(zipfile then replaces the member name), extract_version > 63 (zipfile refuses the archive), data prepended "
+    "to the archive (self-extractor stubs), multi-disk archives",
 ]
 TRUSTED = [
     "hand model S2T/Model/ZipBomb.lean of validate_zipfile/open_zipfile/validate_zip_bytesio/ZipContext.__init__",
@@ -96,18 +110,33 @@ class _FakeZip:
         return self._infos
 
 
-def _zipinfos(entries):
+def _zipinfos(entries, dec=None):
+    """in-memory ZipInfo list; `dec` (parallel list of field dicts, see `_decorate`) sets the member name and
+    every other ZipInfo attribute independently of (file_size, compress_size)"""
     out = []
     for i, (fs, cs, d) in enumerate(entries):
-        zi = zipfile.ZipInfo(f"d{i}/" if d else f"f{i}.bin")
+        f = dec[i] if dec else None
+        zi = zipfile.ZipInfo(f["name"] if f and "name" in f else (f"d{i}/" if d else f"f{i}.bin"))
         zi.file_size, zi.compress_size = fs, cs
+        if f:
+            _apply_fields(zi, f)
         out.append(zi)
     return out
 
 
-def _run_validate(limd, entries, fail=False):
+SOURCES = [None, "", "c11", "a/b.docx", "trusted", "dir/", "s" * 300]
+
+
+def _source_for(entries):
+    """the `source=` label: must not influence the verdict; a function of the case so that replays need not store it"""
+    es = entries or []
+    return SOURCES[(len(es) + sum((f or 0) + 3 * (c or 0) for f, c, _ in es)) % len(SOURCES)]
+
+
+def _run_validate(limd, entries, fail=False, dec=None):
     try:
-        _zb().validate_zipfile(_FakeZip(_zipinfos(entries) if entries is not None else None, fail), limits=_limits(limd), source="c11")
+        _zb().validate_zipfile(_FakeZip(_zipinfos(entries, dec) if entries is not None else None, fail), limits=_limits(limd),
+                               source=_source_for(entries))
         return _classify(None)
     except Exception as e:  # noqa: BLE001 — every outcome is data here
         return _classify(e)
@@ -362,19 +391,226 @@ def _forge(data, sizes):
 
 
 def _entries_of(data):
-    return [(fs, cs, name.endswith("/")) for _, name, cs, fs in _central_directory(data)]
+    """(file_size, compress_size, name ends with '/') per record, own parser (ZIP64 extra decoded)"""
+    return [_eff_sizes(r) + (r["name"].endswith("/"),) for r in _cd_records(data)[0]]
 
 
-def _zip_for_entries(rng, entries):
-    """a real ZIP whose central directory claims exactly `entries` (sizes < 2^32), or None"""
-    if any(f >= 0xFFFFFFFF or c >= 0xFFFFFFFF for f, c, _ in entries) or len(entries) > 2000:
+def _recs_of(data):
+    """full records of a real ZIP for the Lean driver, from the own parser"""
+    return [_rec_json(*_eff_sizes(r), r["name"].endswith("/"), r) for r in _cd_records(data)[0]]
+
+
+def _zip_for_entries(rng, entries, dec=None, zcomment=b""):
+    """a real ZIP whose central directory claims exactly `entries` (sizes < 2^64; beyond 32 bits through ZIP64
+    extras) with the names / other fields of `dec`, or None"""
+    big = any(f >= 0xFFFFFFFF or c >= 0xFFFFFFFF for f, c, _ in entries)
+    if any(f >= 2 ** 64 or c >= 2 ** 64 for f, c, _ in entries) or len(entries) > 2000:
         return None
     members, sizes = [], {}
     for i, (fs, cs, d) in enumerate(entries):
         name = f"d{i}/" if d else f"m{i}.bin"
         members.append((name, bytes(rng.getrandbits(8) for _ in range(rng.randint(0, 12))), d))
         sizes[name] = (fs, cs)
-    return _forge(_build_zip(members), sizes)
+    base = _build_zip(members)
+    if not dec and not big and not zcomment:
+        return _forge(base, sizes)
+    edits = {}
+    for i, (fs, cs, d) in enumerate(entries):
+        edits[i] = dict(dec[i]) if dec else {}
+        edits[i]["sizes"] = (fs, cs)
+    return _forge_fields(base, edits, zcomment)
+
+
+# ----------------------------------------------------------------------------- every other ZipInfo / central-directory field
+# The property quantifies over (file_size, compress_size, is_dir) per entry, "directory entry" = the member NAME
+# ends with '/' (CPython's ZipInfo.is_dir(); theorem S2T.C11.Fields.dir_is_trailing_slash).  Everything else a
+# central-directory record carries is varied INDEPENDENTLY here, so that a guard which starts to consult one of
+# these fields (MS-DOS directory bit, unix mode, creating system, flags, method, extra, CRC, date, comment, …)
+# meets records on which that field disagrees with the name.
+S_IFDIR, S_IFREG, S_IFLNK = 0o040000, 0o100000, 0o120000
+
+
+def _tlv(tag, body):
+    return struct.pack("<HH", tag, len(body)) + body
+
+
+EXTRAS = [
+    _tlv(0x5455, b"\x03" + struct.pack("<LL", 0, 2 ** 31 - 1)),                              # extended timestamp
+    _tlv(0x7875, b"\x01\x04" + struct.pack("<L", 0) + b"\x04" + struct.pack("<L", 0)),       # Info-ZIP unix uid/gid
+    _tlv(0x000A, b"\0" * 4 + _tlv(1, b"\0" * 24)),                                           # NTFS times
+    _tlv(0x7075, b"\x02" + struct.pack("<L", 0) + b"dir/"),       # unicode-path extra, version 2: zipfile ignores it
+    _tlv(0xCAFE, b"/dir/"),                                       # unknown tag
+    _tlv(0x5455, b"\x01" + struct.pack("<L", 1)) + _tlv(0xCAFE, b""),
+    _tlv(0x0001, b""),                                            # ZIP64 tag with nothing in it
+    _tlv(0x0001, struct.pack("<QQ", 2 ** 40, 1)),                 # ZIP64 values that no 32-bit field refers to
+]
+FIELD_POOLS = {
+    "external_attr": [0x10, 0x30, 0x20, 0x01, (S_IFDIR | 0o755) << 16, ((S_IFDIR | 0o755) << 16) | 0x10,
+                      (S_IFREG | 0o644) << 16, (S_IFLNK | 0o777) << 16, 0xFFFFFFFF, 0],
+    "internal_attr": [1, 0xFFFF],
+    "create_system": [0, 3, 10, 19, 255],
+    "create_version": [10, 45, 63, 255],
+    "extract_version": [0, 10, 45, 63],          # > 63: zipfile refuses the whole archive (NotImplementedError)
+    "flag_bits": [0x1, 0x8, 0x800, 0x2000, 0x41, 0x809, 0xFFFF],
+    "compress_type": [0, 8, 12, 14, 93, 99, 1, 0xFFFF],
+    "CRC": [0, 0xFFFFFFFF, 0xDEADBEEF],
+    "dos": [[0, 0], [0xFFFF, 0xFFFF], [0x21, 0], [(44 << 9) | (2 << 5) | 29, 12 << 11]],
+    "extra": [e.hex() for e in EXTRAS],
+    "comment": [b"/".hex(), b"directory".hex(), (b"c" * 300).hex()],
+    "volume": [1, 0xFFFF],
+}
+FIELD_DEFAULT = {"external_attr": 0, "internal_attr": 0, "create_system": 3, "create_version": 20, "extract_version": 20,
+                 "flag_bits": 0, "compress_type": 0, "CRC": 0, "dos": [0x21, 0], "extra": "", "comment": "", "volume": 0}
+HOT = ("external_attr", "create_system", "flag_bits", "compress_type")
+DIR_NAMES = ["d{i}/", "a/b/d{i}/", "f{i}.bin/", "D{i}\\/", "/", " {i}/", "d{i}//"]
+FILE_NAMES = ["f{i}.bin", "d{i}", "d{i}\\", "d{i}/.", "d{i}/ ", "dir{i}/x", "d{i}//x", "{i}/\\", "", "word/document{i}.xml",
+              "d{i}/\n"]
+
+
+def _decorate(rng, entries, p=None):
+    """parallel list of field dicts: a member name of the entry's kind (trailing slash or not; directory-looking
+    file names, duplicates) and every other field drawn independently (each absent = zipfile's default)"""
+    dec, names = [], {True: [], False: []}
+    p = p if p is not None else rng.choice([0.15, 0.3, 0.6])
+    for i, (fs, cs, d) in enumerate(entries):
+        d = bool(d)
+        if names[d] and rng.random() < 0.12:
+            name = rng.choice(names[d])                       # duplicate member name
+        else:
+            name = rng.choice(DIR_NAMES if d else FILE_NAMES).replace("{i}", str(i))
+        names[d].append(name)
+        f = {"name": name}
+        for k, pool in FIELD_POOLS.items():
+            if rng.random() < (min(0.7, 2 * p) if k in HOT else p):
+                f[k] = rng.choice(pool)
+        dec.append(f)
+    return dec
+
+
+def _dos_datetime(d, t):
+    return ((d >> 9) + 1980, (d >> 5) & 0xF, d & 0x1F, t >> 11, (t >> 5) & 0x3F, (t & 0x1F) * 2)
+
+
+def _apply_fields(zi, f):
+    for k in ("external_attr", "internal_attr", "create_system", "create_version", "extract_version", "flag_bits",
+              "compress_type", "CRC", "volume"):
+        if k in f:
+            setattr(zi, k, f[k])
+    if "dos" in f:
+        zi._raw_time = f["dos"][1]
+        zi.date_time = _dos_datetime(*f["dos"])
+    if "extra" in f:
+        zi.extra = bytes.fromhex(f["extra"])
+    if "comment" in f:
+        zi.comment = bytes.fromhex(f["comment"])
+
+
+def _with_names(es, dec):
+    """entries whose directory flag is what the NAME says (the property's notion), for the oracle"""
+    if not dec:
+        return list(es)
+    return [(fs, cs, f["name"].endswith("/") if f and "name" in f else bool(d)) for (fs, cs, d), f in zip(es, dec)]
+
+
+def _rec_json(fs, cs, d, f, i=0):
+    """one full record for the Lean driver (op c11.validate with "recs"): the model derives is_dir from the name"""
+    f = f or {}
+    g = lambda k: f.get(k, FIELD_DEFAULT[k])
+    return [fs or 0, cs or 0, f.get("name", f"d{i}/" if d else f"f{i}.bin"), g("external_attr"), g("internal_attr"),
+            g("create_system"), g("create_version"), g("extract_version"), g("flag_bits"), g("compress_type"), g("CRC"),
+            g("dos")[0], g("dos")[1], g("volume"), list(bytes.fromhex(g("extra"))), list(bytes.fromhex(g("comment")))]
+
+
+_CDH = struct.Struct("<4s4B4HL2L5H2L")
+
+
+def _cd_records(data):
+    """own parser of the whole central directory (independent of zipfile): (records, cd offset, eocd offset)"""
+    eocd = data.rfind(b"PK\x05\x06")
+    if eocd < 0:
+        raise ValueError("no EOCD")
+    n, size, off = struct.unpack_from("<HLL", data, eocd + 10)
+    recs, p = [], off
+    for _ in range(n):
+        (sig, cver, csys, xver, res, flags, ctype, t, d, crc, cs, fs, nl, el, cl, disk, iattr, eattr, hoff) = _CDH.unpack_from(data, p)
+        if sig != b"PK\x01\x02":
+            raise ValueError("bad central header")
+        q = p + 46
+        recs.append({"name": data[q:q + nl].decode("utf-8", "replace"), "create_version": cver, "create_system": csys,
+                     "extract_version": xver, "reserved": res, "flag_bits": flags, "compress_type": ctype, "dos": [d, t],
+                     "CRC": crc, "cs32": cs, "fs32": fs, "volume": disk, "internal_attr": iattr, "external_attr": eattr,
+                     "header_offset": hoff, "extra": data[q + nl:q + nl + el].hex(), "comment": data[q + nl + el:q + nl + el + cl].hex()})
+        p = q + nl + el + cl
+    return recs, off, eocd
+
+
+def _tlvs(extra):
+    out = []
+    while len(extra) >= 4:
+        tp, ln = struct.unpack_from("<HH", extra)
+        out.append((tp, extra[4:4 + ln]))
+        extra = extra[4 + ln:]
+    return out
+
+
+def _eff_sizes(r):
+    """(file_size, compress_size) a record claims: the 32-bit fields, or the ZIP64 extra where they say 0xFFFFFFFF"""
+    fs, cs = r["fs32"], r["cs32"]
+    if fs == 0xFFFFFFFF or cs == 0xFFFFFFFF:
+        for tp, body in _tlvs(bytes.fromhex(r["extra"])):
+            if tp == 1:
+                if fs == 0xFFFFFFFF:
+                    fs, body = struct.unpack_from("<Q", body)[0], body[8:]
+                if cs == 0xFFFFFFFF:
+                    cs = struct.unpack_from("<Q", body)[0]
+                break
+    return fs, cs
+
+
+def _set_sizes(r, fs, cs):
+    """claim (fs, cs) < 2^64; sizes that do not fit 32 bits go to a ZIP64 extra placed first"""
+    extra = bytes.fromhex(r["extra"])
+    body = b""
+    r["fs32"], r["cs32"] = fs, cs
+    if fs >= 0xFFFFFFFF:
+        r["fs32"], body = 0xFFFFFFFF, body + struct.pack("<Q", fs)
+    if cs >= 0xFFFFFFFF:
+        r["cs32"], body = 0xFFFFFFFF, body + struct.pack("<Q", cs)
+    if body:
+        extra = _tlv(1, body) + b"".join(_tlv(tp, b) for tp, b in _tlvs(extra) if tp != 1)
+    r["extra"] = extra.hex()
+
+
+def _emit_cd(data, recs, off, zcomment=b""):
+    out = [data[:off]]
+    n = 0
+    for r in recs:
+        name, extra, comment = r["name"].encode("utf-8"), bytes.fromhex(r["extra"]), bytes.fromhex(r["comment"])
+        out.append(_CDH.pack(b"PK\x01\x02", r["create_version"], r["create_system"], r["extract_version"], r["reserved"],
+                             r["flag_bits"], r["compress_type"], r["dos"][1], r["dos"][0], r["CRC"], r["cs32"], r["fs32"],
+                             len(name), len(extra), len(comment), r["volume"], r["internal_attr"], r["external_attr"],
+                             r["header_offset"]) + name + extra + comment)
+        n += len(out[-1])
+    out.append(struct.pack("<4s4H2LH", b"PK\x05\x06", 0, 0, len(recs), len(recs), n, off, len(zcomment)) + zcomment)
+    return b"".join(out)
+
+
+def _forge_fields(data, edits, zcomment=b""):
+    """edits: {index or member name: {"sizes": (file_size, compress_size), "name":…, <field>: …}} re-written into the
+    central directory (variable-length fields included; the local headers and member data stay as they are)"""
+    recs, off, _ = _cd_records(data)
+    for i, r in enumerate(recs):
+        for key in (i, r["name"]):
+            f = edits.get(key)
+            if not f:
+                continue
+            for k, v in f.items():
+                if k != "sizes":
+                    r[k] = v
+            if "sizes" in f:
+                _set_sizes(r, *f["sizes"])
+            break
+    return _emit_cd(data, recs, off, zcomment)
 
 
 # ----------------------------------------------------------------------------- runtime monitor
@@ -519,6 +755,57 @@ def _points(base):
     return pts
 
 
+# named decorations of central-directory records of a forged fixture document: "<point>@<decor>" puts it on the
+# forged members the point is about, "<point>@@<decor>" on EVERY member of the container (only fields zipfile
+# does not need for reading a member)
+DECOR = {
+    "dosdir": {"external_attr": 0x10},
+    "dosdir-sys0": {"external_attr": 0x10, "create_system": 0},
+    "unixdir": {"external_attr": (S_IFDIR | 0o755) << 16, "create_system": 3},
+    "unixdir+dosdir": {"external_attr": ((S_IFDIR | 0o755) << 16) | 0x10},
+    "symlink": {"external_attr": (S_IFLNK | 0o777) << 16},
+    "attrs-ff": {"external_attr": 0xFFFFFFFF, "internal_attr": 0xFFFF},
+    "encrypted": {"flag_bits": 0x1},
+    "flags-all": {"flag_bits": 0xFFFF},
+    "stored": {"compress_type": 0},
+    "method99": {"compress_type": 99},
+    "crc0": {"CRC": 0},
+    "date0": {"dos": [0, 0]},
+    "comment-slash": {"comment": b"/".hex()},
+    "extra-junk": {"extra": EXTRAS[4].hex()},
+    "extra-upath": {"extra": EXTRAS[3].hex()},
+    "zip64-unused": {"extra": EXTRAS[7].hex()},
+    "sys255": {"create_system": 255, "create_version": 255},
+}
+SAFE_FOR_REAL = ("dosdir-sys0", "unixdir+dosdir", "attrs-ff", "date0", "comment-slash", "sys255")
+PAD = (0, 50_000_000)
+OVER_TAGS = ["single+1", "eratio+1", "eratio-big+1", "tratio+1", "total+1", "zero+1", "single+1&dir"]
+AT_TAGS = ["single+0", "eratio+0", "tratio+0", "total+0", "zero0", "dir-wild"]
+
+
+def _decor_tags(rng, k):
+    tags = [f"{t}@{d}" for t in OVER_TAGS + AT_TAGS for d in DECOR] + [f"{t}@@{d}" for t in OVER_TAGS + AT_TAGS + ["plain"] for d in SAFE_FOR_REAL]
+    fixed = ["eratio+1@dosdir-sys0", "single+1@@unixdir+dosdir", "dir-wild@stored"] + [f"eratio+1@@{d}" for d in SAFE_FOR_REAL]
+    return tags if k is None else fixed + rng.sample([t for t in tags if t not in fixed], k)
+
+
+def _point_data(fixture, tag, base=None):
+    """container bytes of a forged point; tag = '<point>' | '<point>@<decor>' | '<point>@@<decor>' """
+    base = base if base is not None else _repack(fixture)
+    stag, sep, decor = tag.partition("@")
+    sizes = dict(_points(base))[stag]
+    if not sep:
+        return _forge(base, sizes)
+    everywhere, decor = decor.startswith("@"), decor.lstrip("@")
+    edits = {r["name"]: dict(DECOR[decor]) for r in _cd_records(base)[0]} if everywhere else {}
+    for name, sz in sizes.items():
+        e = edits.setdefault(name, {})
+        if sz != PAD and not everywhere:
+            e.update(DECOR[decor])
+        e["sizes"] = sz
+    return _forge_fields(base, edits)
+
+
 def _run_extractor(fn, modname, data):
     """(verdict, monitor log, exception repr)"""
     import importlib
@@ -544,6 +831,8 @@ def _extractor_cases(ctx, thorough_counts):
         base = _repack(fixture)
         for tag, sizes in _points(base):
             yield fn, modname, fixture, tag, _forge(base, sizes)
+        for tag in _decor_tags(rng, 60 if thorough_counts else 7):
+            yield fn, modname, fixture, tag, _point_data(fixture, tag, base)
         if fn in count_for:
             n0 = len(_central_directory(base))
             for d in (0, 1):
@@ -566,17 +855,39 @@ def correspondence(ctx):
             i = rng.randrange(len(es))
             mal.append((limd, es[:i] + [(None if rng.random() < 0.5 else es[i][0], None if rng.random() < 0.5 else es[i][1], es[i][2])] + es[i + 1:], "none-field"))
     reqs, impls = [], []
+    isdir_diff = []
     for limd, es, tag in cases + mal:
+        dec = None
         if es is None:
             res = _run_validate(limd, None, fail=True)
             reqs.append({"op": "c11.validate", "lim": _lim_json(limd), "infos": None})
         else:
-            res = _run_validate(limd, es)
-            reqs.append({"op": "c11.validate", "lim": _lim_json(limd), "infos": [[f or 0, c or 0, bool(d)] for f, c, d in es]})
-        impls.append((limd, es, tag, res))
+            # every other ZipInfo field varied independently of (file_size, compress_size, trailing slash); the
+            # model gets the full records and derives "directory" from the name alone
+            if es and tag != "none-field" and rng.random() < 0.55:
+                dec = _decorate(rng, es)
+            res = _run_validate(limd, es, dec=dec)
+            if dec:
+                reqs.append({"op": "c11.validate", "lim": _lim_json(limd), "recs": [_rec_json(f, c, d, dec[i], i) for i, (f, c, d) in enumerate(es)]})
+                ctx.count("fields/decorated-infolist")
+                for (f, c, d), fd, zi in zip(es, dec, _zipinfos(es, dec)):
+                    if not d and fd.get("external_attr", 0) & 0x10:
+                        ctx.count("fields/file-entry-with-msdos-dir-bit")
+                    if not d and (fd.get("external_attr", 0) >> 16) & 0o170000 == S_IFDIR:
+                        ctx.count("fields/file-entry-with-unix-dir-mode")
+                    if d and not fd.get("external_attr", 0) & 0x10:
+                        ctx.count("fields/dir-entry-without-dir-bit")
+                    if zi.is_dir() != fd["name"].endswith("/") and len(isdir_diff) < 3:
+                        isdir_diff.append(fd["name"])
+            else:
+                reqs.append({"op": "c11.validate", "lim": _lim_json(limd), "infos": [[f or 0, c or 0, bool(d)] for f, c, d in es]})
+        impls.append((limd, es, tag, res, dec))
+    if isdir_diff:
+        broken.append(Broken("correspondence", "c11.zipfile.is_dir", f"ASSUMPTION broken: this interpreter's ZipInfo.is_dir() is not "
+                             f"`filename.endswith('/')` on {isdir_diff!r} (S2T.C11.Fields.zipInfoOf)", case={"kind": "assumption"}))
     outs = ctx.drive(reqs)
     reason_diff = 0
-    for (limd, es, tag, (res, reason)), o in zip(impls, outs):
+    for (limd, es, tag, (res, reason), dec), o in zip(impls, outs):
         ctx.case((sorted(limd.items()), es), nontrivial=bool(es) and any(not d for _, _, d in es))
         ctx.count(f"validate/{tag.split('+')[0] if tag.startswith('ulp') is False else tag}/{res}")
         if "drv_error" in o:
@@ -585,23 +896,43 @@ def correspondence(ctx):
         if o["res"] != res:
             B("c11.validate", f"impl={res}({reason}) model={o['res']}({o.get('reason')}) tag={tag}",
               {"kind": "predicate", "lim": _lim_replay(limd), "entries": _rle([(f or 0, c or 0, d) for f, c, d in es] if es else []),
-               "infolist_raises": es is None})
+               "infolist_raises": es is None, **({"dec": dec} if dec else {})})
         elif res == "bomb" and o.get("reason") != reason:
             reason_diff += 1
     ctx.coverage["reason_order_differences (informational)"] = reason_diff
     k = len(impls) // 3
     ctx.sample({"lim": _lim_replay(impls[k][0]), "entries": _rle(impls[k][1] or [])[:8], "tag": impls[k][2], "impl": impls[k][3][0], "model": outs[k]})
+    kd = next((i for i, x in enumerate(impls) if x[4]), None)
+    if kd is not None:
+        ctx.sample({"lim": _lim_replay(impls[kd][0]), "entries": _rle(impls[kd][1])[:4], "fields": impls[kd][4][:4], "impl": impls[kd][3][0], "model": outs[kd]})
 
     # (B) real ZIPs with forged central directories: validate_zip_bytesio / open_zipfile
     zb = _zb()
     reqs, impls = [], []
     nB = 0
+    parse_diff = []
     for limd, es, tag in _lattice(rng, ctx.n(1500, 12000)):
-        data = _zip_for_entries(rng, es)
+        dec = _decorate(rng, es) if es and rng.random() < 0.55 else None
+        zcomment = rng.choice([b"", b"", b"trusted", b"/" * 40]) if dec else b""
+        data = _zip_for_entries(rng, es, dec, zcomment)
         if data is None:
             continue
         nB += 1
         parsed = _entries_of(data)
+        recs = _recs_of(data) if dec else None
+        if dec:
+            ctx.count("fields/decorated-real-zip" + ("+zip64" if any(f >= 0xFFFFFFFF or c >= 0xFFFFFFFF for f, c, _ in es) else ""))
+            # ASSUMPTION check: zipfile parses the forged directory as written (sizes, name, is_dir = trailing slash)
+            try:
+                with zipfile.ZipFile(io.BytesIO(data)) as zf0:
+                    seen = [(i.file_size, i.compress_size, i.is_dir()) for i in zf0.infolist()]
+                    FK = ("external_attr", "create_system", "flag_bits", "compress_type", "CRC", "internal_attr", "volume")
+                    flds = [{"name": i.filename, **{k: getattr(i, k) for k in FK}} for i in zf0.infolist()]
+                if (seen != parsed or any(a[k] != f[k] for a, f in zip(flds, dec) for k in f if k in a)) and len(parse_diff) < 3:
+                    parse_diff.append((seen[:4], parsed[:4], flds[:4], dec[:4]))
+            except Exception as e:  # noqa: BLE001
+                if len(parse_diff) < 3:
+                    parse_diff.append(repr(e))
         how = "ok"
         if rng.random() < 0.12:           # malformed stream: truncated / garbage / empty
             k = rng.choice(["trunc", "garbage", "empty", "noeocd"])
@@ -614,30 +945,32 @@ def correspondence(ctx):
         buf = io.BytesIO(data)
         buf.seek(pos)
         try:
-            zb.validate_zip_bytesio(buf, limits=lim, source="c11")
+            zb.validate_zip_bytesio(buf, limits=lim, source=_source_for(es))
             exc = None
         except Exception as e:  # noqa: BLE001
             exc = e
         res = _classify(exc)[0]
         if how == "raise":
-            if res == "ok":
+            if res in ("ok", "bomb"):
                 how = "ok"        # zipfile still found a central directory (short truncation of the comment etc.)
                 try:
                     parsed = _entries_of(data)
+                    recs = _recs_of(data) if dec else None
                 except Exception:  # noqa: BLE001
                     continue
             else:
                 res = "zipOpen" if res.startswith("other:") else res
-        impls.append(("bytesio", limd, parsed, tag, how, pos, res, buf.tell(), None))
-        reqs.append({"op": "c11.bytesio", "lim": _lim_json(limd), "pos": pos, "open": how, "after": rng.randint(0, 99),
-                     "infos": [[f, c, d] for f, c, d in parsed]})
+        fdec = {"dec": dec, "zcomment": zcomment.hex()} if dec else {}
+        minfos = {"recs": recs} if recs is not None and how == "ok" else {"infos": [[f, c, d] for f, c, d in parsed]}
+        impls.append(("bytesio", limd, parsed, tag, how, pos, res, buf.tell(), None, fdec))
+        reqs.append({"op": "c11.bytesio", "lim": _lim_json(limd), "pos": pos, "open": how, "after": rng.randint(0, 99), **minfos})
         # open_zipfile
         buf = io.BytesIO(data)
         buf.seek(pos)
         with _Monitor() as mon:
             zf = None
             try:
-                zf = zb.open_zipfile(buf, limits=lim, source="c11")
+                zf = zb.open_zipfile(buf, limits=lim, source=_source_for(es))
                 exc = None
             except Exception as e:  # noqa: BLE001
                 exc = e
@@ -648,14 +981,16 @@ def correspondence(ctx):
         handle_open = zf is not None and zf.fp is not None
         if zf is not None:
             zf.close()
-        impls.append(("open", limd, parsed, tag, how, pos, res2, None, (closed, handle_open)))
-        reqs.append({"op": "c11.open", "lim": _lim_json(limd), "pos": pos, "open": how, "after": 0,
-                     "infos": [[f, c, d] for f, c, d in parsed]})
+        impls.append(("open", limd, parsed, tag, how, pos, res2, None, (closed, handle_open), fdec))
+        reqs.append({"op": "c11.open", "lim": _lim_json(limd), "pos": pos, "open": how, "after": 0, **minfos})
+    if parse_diff:
+        broken.append(Broken("correspondence", "c11.zipfile.parse", f"ASSUMPTION broken: zipfile does not hand out the forged central "
+                             f"directory as written: {parse_diff!r}"[:900], case={"kind": "assumption"}))
     outs = ctx.drive(reqs)
-    for (op, limd, es, tag, how, pos, res, endpos, extra), o in zip(impls, outs):
-        ctx.case((op, sorted(limd.items()), es, pos, how))
+    for (op, limd, es, tag, how, pos, res, endpos, extra, fdec), o in zip(impls, outs):
+        ctx.case((op, sorted(limd.items()), es, pos, how, repr(fdec) if fdec else None))
         ctx.count(f"{op}/{'malformed' if how == 'raise' else 'zip'}/{res}")
-        case = {"kind": op, "lim": _lim_replay(limd), "entries": _rle(es), "pos": pos, "malformed": how == "raise"}
+        case = {"kind": op, "lim": _lim_replay(limd), "entries": _rle(es), "pos": pos, "malformed": how == "raise", **fdec}
         if "drv_error" in o:
             B("driver", o["drv_error"], case)
         elif o["res"] != res:
@@ -722,14 +1057,18 @@ def _short(log):
 
 
 # ----------------------------------------------------------------------------- oracle of the property on the real code
-def _check_predicate(limd, es, infolist_raises=False):
-    """[(key, what)] — violations of the statement by validate_zipfile on this input"""
+def _check_predicate(limd, es, infolist_raises=False, dec=None):
+    """[(key, what)] — violations of the statement by validate_zipfile on this input.  With `dec` the ZipInfo
+    objects carry the given names / other fields; a directory entry is one whose NAME ends with '/'."""
     if infolist_raises:
         res, _ = _run_validate(limd, None, fail=True)
         return [] if res == "bomb" else [("predicate.unreadable-directory", f"infolist() raises but validate_zipfile -> {res}")]
-    res, reason = _run_validate(limd, es)
+    res, reason = _run_validate(limd, es, dec=dec)
+    es = _with_names(es, dec)
     want = _spec(limd, es)
     shown = f"limits={_lim_show(limd)} entries(file_size,compress_size,is_dir)={_show(es)}"
+    if dec:
+        shown += " ZipInfo fields per entry (name; non-default attributes)=" + _show_dec(dec)
     if res.startswith("other:"):
         return [("predicate.wrong-error." + res[6:], f"validate_zipfile raised {res[6:]} instead of deciding; {shown}")]
     if want and res == "ok":
@@ -748,37 +1087,56 @@ def _show(es):
     return "[" + ", ".join(f"({f},{c},{'dir' if d else 'file'})" + (f"x{n}" if n > 1 else "") for f, c, d, n in r[:12]) + (", …]" if len(r) > 12 else "]")
 
 
-def _shrink(limd, es, key):
-    """greedy: drop entries while the same violation key persists"""
+def _show_dec(dec):
+    return "[" + "; ".join(repr(f.get("name")) + "".join(
+        f" {k}={v:#x}" if isinstance(v, int) else f" {k}={v!r}" for k, v in f.items() if k != "name") for f in dec[:8]) + (
+        "; …]" if len(dec) > 8 else "]")
+
+
+def _shrink(limd, es, key, dec=None):
+    """greedy: drop entries, then decorations, while the same violation key persists"""
     if len(es) > 300:
-        return es
+        return (es, dec) if dec is not None else es
     es = list(es)
+    d2 = list(dec) if dec else None
     i = 0
     while i < len(es):
         cand = es[:i] + es[i + 1:]
-        if any(k == key for k, _ in _check_predicate(limd, cand)):
-            es = cand
+        cdec = d2[:i] + d2[i + 1:] if d2 else None
+        if any(k == key for k, _ in _check_predicate(limd, cand, dec=cdec)):
+            es, d2 = cand, cdec
         else:
             i += 1
-    return es
+    if dec is None:
+        return es
+    for i in range(len(d2)):                      # which fields matter: drop the others one by one
+        for k in [k for k in d2[i] if k != "name"]:
+            cand = d2[:i] + [{a: b for a, b in d2[i].items() if a != k}] + d2[i + 1:]
+            if any(kk == key for kk, _ in _check_predicate(limd, es, dec=cand)):
+                d2 = cand
+    return es, d2
 
 
-def _check_stream(limd, es, pos, malformed=False, rng=None):
-    """[(key, what)] for validate_zip_bytesio / open_zipfile on a real ZIP claiming `es`"""
+def _check_stream(limd, es, pos, malformed=False, rng=None, dec=None, zcomment=b""):
+    """[(key, what)] for validate_zip_bytesio / open_zipfile on a real ZIP claiming `es` (names / other
+    central-directory fields from `dec`)"""
     import random
     rng = rng or random.Random(0)
-    data = _zip_for_entries(rng, es)
+    data = _zip_for_entries(rng, es, dec, zcomment)
     if data is None:
         return []
     if malformed:
         data = data[: max(0, len(data) - 25)]
     zb, out = _zb(), []
+    es = _with_names(es, dec)
     want = _spec(limd, es)
     shown = f"limits={_lim_show(limd)} central directory={_show(es)} start position={pos}"
+    if dec:
+        shown += " record fields (name; non-default)=" + _show_dec(dec) + (f" archive comment={zcomment!r}" if zcomment else "")
     buf = io.BytesIO(data)
     buf.seek(pos)
     try:
-        zb.validate_zip_bytesio(buf, limits=_limits(limd), source="c11")
+        zb.validate_zip_bytesio(buf, limits=_limits(limd), source=_source_for(es))
         res = "ok"
     except Exception as e:  # noqa: BLE001
         res = _classify(e)[0]
@@ -794,7 +1152,7 @@ def _check_stream(limd, es, pos, malformed=False, rng=None):
     with _Monitor() as mon:
         zf = None
         try:
-            zf = zb.open_zipfile(buf, limits=_limits(limd), source="c11")
+            zf = zb.open_zipfile(buf, limits=_limits(limd), source=_source_for(es))
             res = "ok"
         except Exception as e:  # noqa: BLE001
             res = _classify(e)[0]
@@ -819,12 +1177,14 @@ def _check_extractor(fn, modname, fixture, tag, data=None):
             base0 = _repack(fixture)
             data = _repack(fixture, extra_pad=DOCUMENTED["me"] + int(tag[5:]) - len(_central_directory(base0)))
         else:
-            base = _repack(fixture)
-            data = _forge(base, dict(_points(base))[tag])
+            data = _point_data(fixture, tag)
     es = _entries_of(data)
     want = _spec(DOCUMENTED, es)
     verdict, log, exc = _run_extractor(fn, modname, data)
-    shown = f"{fn} on fixture {fixture} re-packed, forged point '{tag}' ({len(es)} entries; forged: " + _show([e for e, (_, n, _, _) in zip(es, _central_directory(data)) if n.startswith('zz_forged/')]) + ")"
+    recs = _cd_records(data)[0]
+    shown = f"{fn} on fixture {fixture} re-packed, forged point '{tag}' ({len(es)} entries; forged: " + _show([e for e, r in zip(es, recs) if r["name"].startswith('zz_forged/')]) + ")"
+    if "@" in tag:
+        shown += f" central-directory fields {DECOR[tag.split('@')[-1]]} on " + ("every member" if "@@" in tag else "the forged members")
     out = []
     if not _log_ok(log):
         out.append((f"order.read-before-validate.{fn}", f"a member was read before a successful validate_zipfile: {_short(log)}; {shown}"))
@@ -893,15 +1253,20 @@ def search(ctx, broken):
         c = b.case or {}
         try:
             if c.get("kind") == "predicate":
-                limd, es = _lim_from_replay(c["lim"]), _unrle(c["entries"])
-                for key, what in _check_predicate(limd, es, c.get("infolist_raises", False)):
-                    es2 = _shrink(limd, es, key)
-                    what2 = dict(_check_predicate(limd, es2)).get(key, what)
-                    add(key, what2, {"kind": "predicate", "lim": _lim_replay(limd), "entries": _rle(es2)})
+                limd, es, dec = _lim_from_replay(c["lim"]), _unrle(c["entries"]), c.get("dec")
+                for key, what in _check_predicate(limd, es, c.get("infolist_raises", False), dec=dec):
+                    if dec:
+                        es2, dec2 = _shrink(limd, es, key, dec)
+                    else:
+                        es2, dec2 = _shrink(limd, es, key), None
+                    what2 = dict(_check_predicate(limd, es2, dec=dec2)).get(key, what)
+                    add(key, what2, {"kind": "predicate", "lim": _lim_replay(limd), "entries": _rle(es2), **({"dec": dec2} if dec2 else {})})
             elif c.get("kind") in ("bytesio", "open"):
-                limd, es = _lim_from_replay(c["lim"]), _unrle(c["entries"])
-                for key, what in _check_stream(limd, es, c["pos"], c.get("malformed", False)):
-                    add(key, what, {"kind": "stream", "lim": c["lim"], "entries": c["entries"], "pos": c["pos"], "malformed": c.get("malformed", False)})
+                limd, es, dec = _lim_from_replay(c["lim"]), _unrle(c["entries"]), c.get("dec")
+                zc = bytes.fromhex(c.get("zcomment", ""))
+                for key, what in _check_stream(limd, es, c["pos"], c.get("malformed", False), dec=dec, zcomment=zc):
+                    add(key, what, {"kind": "stream", "lim": c["lim"], "entries": c["entries"], "pos": c["pos"], "malformed": c.get("malformed", False),
+                                    **({"dec": dec, "zcomment": zc.hex()} if dec else {})})
             elif c.get("kind") == "extractor":
                 for key, what in _check_extractor(c["fn"], c["module"], c["fixture"], c["point"]):
                     add(key, what, dict(c))
@@ -935,6 +1300,12 @@ def search(ctx, broken):
                 es2 = _shrink(limd, es, key)
                 what2 = dict(_check_predicate(limd, es2)).get(key, what)
                 add(key, what2, {"kind": "predicate", "lim": _lim_replay(limd), "entries": _rle(es2)})
+            if es and len(es) <= 300:           # the same point with every other ZipInfo field varied independently
+                dec = _decorate(rng, es)
+                for key, what in _check_predicate(limd, es, dec=dec):
+                    es2, dec2 = _shrink(limd, es, key, dec)
+                    what2 = dict(_check_predicate(limd, es2, dec=dec2)).get(key, what)
+                    add(key, what2, {"kind": "predicate", "lim": _lim_replay(limd), "entries": _rle(es2), "dec": dec2})
             if len(found) >= 5:
                 break
         res, _ = _run_validate(dict(DOCUMENTED), None, fail=True)
@@ -943,12 +1314,15 @@ def search(ctx, broken):
     if not found:
         n = 0
         for limd, es, tag in _lattice(rng, 1500):
-            if any(f >= 0xFFFFFFFF or c >= 0xFFFFFFFF for f, c, _ in es):
+            if any(f >= 2 ** 64 or c >= 2 ** 64 for f, c, _ in es):
                 continue
             pos = rng.choice([0, 1, 7, 40])
             mal = rng.random() < 0.1
-            for key, what in _check_stream(limd, es, pos, mal, rng):
-                add(key, what, {"kind": "stream", "lim": _lim_replay(limd), "entries": _rle(es), "pos": pos, "malformed": mal})
+            dec = _decorate(rng, es) if es and rng.random() < 0.6 else None
+            zc = rng.choice([b"", b"trusted"]) if dec else b""
+            for key, what in _check_stream(limd, es, pos, mal, dec=dec, zcomment=zc):
+                add(key, what, {"kind": "stream", "lim": _lim_replay(limd), "entries": _rle(es), "pos": pos, "malformed": mal,
+                                **({"dec": dec, "zcomment": zc.hex()} if dec else {})})
             n += 1
             if len(found) >= 5 or n > 600:
                 break
@@ -968,9 +1342,10 @@ def replay(ctx, payload):
     rep = payload.get("replay", {})
     kind = rep.get("kind")
     if kind == "predicate":
-        vs = _check_predicate(_lim_from_replay(rep["lim"]), _unrle(rep["entries"]), rep.get("infolist_raises", False))
+        vs = _check_predicate(_lim_from_replay(rep["lim"]), _unrle(rep["entries"]), rep.get("infolist_raises", False), dec=rep.get("dec"))
     elif kind == "stream":
-        vs = _check_stream(_lim_from_replay(rep["lim"]), _unrle(rep["entries"]), rep["pos"], rep.get("malformed", False))
+        vs = _check_stream(_lim_from_replay(rep["lim"]), _unrle(rep["entries"]), rep["pos"], rep.get("malformed", False),
+                           dec=rep.get("dec"), zcomment=bytes.fromhex(rep.get("zcomment", "")))
     elif kind == "extractor":
         vs = _check_extractor(rep["fn"], rep["module"], rep["fixture"], rep["point"])
     elif kind == "site":
